@@ -42,7 +42,7 @@ class Conv:
     def __init__(self, ctx, q: str):
         M, W = ctx.M, ctx.W
         self.q = q
-        self.fn = M.nfn(q)
+        self.fn = M.nfn(q, ctor=True)
         self.ty = W.typer_for(self.fn)
         self.file = M.mods[self.fn.mod].rel
         self.name = q.split(".")[-2]
